@@ -15,12 +15,16 @@ Definition key_eqb (a b : N * N) : bool := N.eqb (fst a) (fst b) && N.eqb (snd a
 Definition keys_eqb := list_eqb key_eqb.
 
 (* ---------- collector-only cases ---------- *)
-Inductive cop : Type := CAdd (id v : N) | CDel (cur : N).
+(* CGrow n: RuntimeConfig.AddReplica has been called until n replicas are configured (the
+   collector reads config.QuorumSize() at every add) *)
+Inductive cop : Type := CAdd (id v : N) | CDel (cur : N) | CGrow (n : nat).
 (* observation after an op: returned list (None = "nil, false") and the bag *)
 Definition cobs : Type := (option (list (N * N)) * list (N * N))%type.
 Definition ccase : Type := (nat * list (cop * cobs))%type.
 
 Definition bare (id v : N) : tmsg := mkT id v None None None.
+
+Definition qsize_of (n : nat) : nat := Z.to_nat (quorum_size (Z.of_nat n)).
 
 Fixpoint ccheck (q : nat) (bag : list tmsg) (l : list (cop * cobs)) : bool :=
   match l with
@@ -33,9 +37,11 @@ Fixpoint ccheck (q : nat) (bag : list tmsg) (l : list (cop * cobs)) : bool :=
       let bag' := delete_old_views cur bag in
       match ret with None => true | Some _ => false end &&
       keys_eqb (map key_of bag') after && ccheck q bag' r
+  | (CGrow n, (ret, after)) :: r =>
+      match ret with None => true | Some _ => false end &&
+      keys_eqb (map key_of bag) after && ccheck (qsize_of n) bag r
   end.
 
-Definition qsize_of (n : nat) : nat := Z.to_nat (quorum_size (Z.of_nat n)).
 Definition check_ccase (c : ccase) : bool := ccheck (qsize_of (fst c)) [] (snd c).
 Definition coll_mismatches := mismatches_with check_ccase.
 
@@ -52,7 +58,13 @@ Record sobs : Type := SO {
   o_bag : list (N * N)                          (* collector bag after the call *)
 }.
 
-Definition scase : Type := (cfg * N * list (tmsg * result view * sobs))%type.
+(* SMsg: one OnRemoteTimeout call (message, outcome of the first advance, observation);
+   SGrow: the membership configured at the replica under test (and at the verifying replica)
+   has grown to [members] *)
+Inductive sop : Type :=
+| SMsg (t : tmsg) (a1 : result view) (o : sobs)
+| SGrow (members : list N).
+Definition scase : Type := (cfg * N * list sop)%type.
 
 (* interned world of the harness: genesis hash 1; block 2 at view 1 is stored everywhere *)
 Definition the_store : store := fun h => if N.eqb h 2 then Some (mkBI 2 1) else None.
@@ -65,9 +77,12 @@ Definition rcode {A} (r : result A) : N := match r with Ok _ => 0 | Reject => 1 
 Definition parts (s : option qsig) : list N := match s with Some s => participants s | None => [] end.
 Definition lN_eqb := list_eqb N.eqb.
 
-Definition tc_obs (t : tc) : N * list N := (tc_view t, parts (tc_sig t)).
+(* a Multi lists its signers in slice order; a BLS bitfield is iterated in ascending id order *)
+Definition parts_obs (s : option qsig) : list N :=
+  match s with Some (QBls _ _) => sortN (parts s) | _ => parts s end.
+Definition tc_obs (t : tc) : N * list N := (tc_view t, parts_obs (tc_sig t)).
 Definition agg_obs (a : aggqc) : N * list N * list N :=
-  (aq_view a, parts (aq_sig a), sortN (map fst (map_of (aq_qcs a)))).
+  (aq_view a, parts_obs (aq_sig a), sortN (map fst (map_of (aq_qcs a)))).
 
 Definition tc_obs_eqb (a b : N * list N) : bool := N.eqb (fst a) (fst b) && lN_eqb (snd a) (snd b).
 Definition agg_obs_eqb (a b : N * list N * list N) : bool :=
@@ -98,10 +113,11 @@ Definition check_step (c : cfg) (s : sst) (t : tmsg) (a1 : result view) (o : sob
     end in
   (common && ok, s').
 
-Fixpoint scheck (c : cfg) (s : sst) (l : list (tmsg * result view * sobs)) : bool :=
+Fixpoint scheck (c : cfg) (s : sst) (l : list sop) : bool :=
   match l with
   | [] => true
-  | (t, a1, o) :: r => let '(ok, s') := check_step c s t a1 o in ok && scheck c s' r
+  | SMsg t a1 o :: r => let '(ok, s') := check_step c s t a1 o in ok && scheck c s' r
+  | SGrow ms :: r => scheck (mkCfg (c_scheme c) ms (c_genesis c) (c_aggqc c)) s r
   end.
 
 Definition check_scase (x : scase) : bool :=
@@ -110,16 +126,32 @@ Definition sync_mismatches := mismatches_with check_scase.
 
 (* ---------- abbreviations used in the emitted terms ---------- *)
 Definition kind_of (sch : scheme) : mkind := match sch with Eddsa => KEddsa | _ => KEcdsa end.
-(* a one-element multi-signature labelled [lab], really made by [who] over [m] *)
-Definition G (sch : scheme) (lab who : N) (m : msg) : qsig := QMulti (kind_of sch) [mkSig lab (Some (who, m))].
-(* garbage bytes labelled [lab] *)
-Definition X (sch : scheme) (lab : N) : qsig := QMulti (kind_of sch) [mkSig lab None].
+(* a single signature labelled [lab] (ECDSA/EdDSA signer field, BLS bitfield {lab}), really made
+   by [who] over [m] *)
+Definition G (sch : scheme) (lab who : N) (m : msg) : qsig :=
+  match sch with
+  | Bls12 => QBls [lab] (Some [(who, m)])
+  | _ => QMulti (kind_of sch) [mkSig lab (Some (who, m))]
+  end.
+(* garbage bytes labelled [lab] (list schemes only; for BLS the harness uses a genuine signature
+   over an unrelated message) *)
+Definition X (sch : scheme) (lab : N) : qsig :=
+  match sch with
+  | Bls12 => QBls [lab] None
+  | _ => QMulti (kind_of sch) [mkSig lab None]
+  end.
 (* two signatures in one object *)
 Definition G2 (sch : scheme) (a b : N) (m : msg) : qsig :=
-  QMulti (kind_of sch) [mkSig a (Some (a, m)); mkSig b (Some (b, m))].
+  match sch with
+  | Bls12 => QBls [a; b] (Some [(a, m); (b, m)])
+  | _ => QMulti (kind_of sch) [mkSig a (Some (a, m)); mkSig b (Some (b, m))]
+  end.
 (* genuine multi-signature by [ids] over [m] *)
 Definition GM (sch : scheme) (ids : list N) (m : msg) : qsig :=
-  QMulti (kind_of sch) (map (fun i => mkSig i (Some (i, m))) ids).
+  match sch with
+  | Bls12 => QBls ids (Some (map (fun i => (i, m)) ids))
+  | _ => QMulti (kind_of sch) (map (fun i => mkSig i (Some (i, m))) ids)
+  end.
 Definition qc_gen : qc := mkQC None 0 1 1.
 Definition qc_b1 (sch : scheme) (ids : list N) : qc := mkQC (Some (GM sch ids (MBlock 2))) 1 2 2.
 Definition qc_forged : qc := mkQC None 9 3 3.
